@@ -155,6 +155,34 @@ def touch_constants(b, spec):
             b.touched += 1
 
 
+def failed_attempts(b, spec):
+    """After the design is declared the user tries a few declarations the library rejects (out-of-range or ill-typed
+    parameter, motor as slave) and catches the error: a rejected call leaves both elements as they were, so everything that
+    follows is unaffected. A value the library happens to accept is followed by the scenario's own declaration again."""
+    import random as _r
+    rng = _r.Random(spec['failed_attempts'])
+    ut = g().ut
+    for i, e in enumerate(spec['chain']):
+        if rng.random() < 0.4:
+            continue
+        m, s_ = b.elements[i], b.elements[i + 1]
+        rel = e['rel']
+        try:
+            if rel['type'] == 'worm' and ([spec['motor']] + list(spec['chain']))[i]['type'] == 'wormgear' and rng.random() < 0.5:
+                # the other orientation with a friction for which the documented efficiency formula leaves [0, 1] (for a
+                # driving wheel: any friction above cos(alpha)*tan(beta) <= 0.97; for a driving worm: none within [0, 1])
+                ut.add_worm_gear_mating(master=s_, slave=m, friction_coefficient=rng.choice([0.999, 1, 1.0]))
+            elif rel['type'] == 'worm':
+                ut.add_worm_gear_mating(master=m, slave=s_, friction_coefficient=rng.choice([1.5, -0.2, 0.999, 1, '0.3', None]))
+            elif rel['type'] == 'gear':
+                ut.add_gear_mating(master=m, slave=s_, efficiency=rng.choice([1.2, -0.1, None, '0.9', 1.0000001]))
+            else:
+                ut.add_fixed_joint(master=s_, slave=b.elements[0])
+            declare(m, s_, rel)
+        except (ValueError, TypeError):
+            b.rejected_attempts += 1
+
+
 def prior_design(b, spec):
     """An earlier design of the same pieces: before the relations of the scenario are declared, some adjacent pairs are
     first related in ANOTHER legal way (same pair, same direction), which the final declaration then replaces as a whole.
@@ -213,6 +241,9 @@ def build(spec, hooks=True):
     for i, e in enumerate(spec['chain']):
         declare(b.elements[i], b.elements[i + 1], e['rel'])
     b.motor, b.last = b.elements[0], b.elements[-1]
+    b.rejected_attempts = 0
+    if spec.get('failed_attempts') is not None:
+        failed_attempts(b, spec)
     b.touched = 0
     if spec.get('touch_constants') is not None:
         touch_constants(b, spec)
@@ -429,6 +460,7 @@ def extract(b, raw=False):
     tr.n = len(tr.time)
     tr.self_locking = pt.self_locking
     tr.load = getattr(b, 'cur_load', None)
+    tr.probe_log = list(b.probe_log[getattr(b, 'probe_log_mark', 0):])      # the probe entries of THIS history (since the last reset)
     tr.els = []
     tr.bad_kind = []
     for el in pt.elements:
